@@ -20,6 +20,7 @@ type verifDesc struct {
 	hasMap     bool
 	newObj     func() interface{}
 	anyObj     func(d int) interface{}
+	anyObjJ    func(d int) interface{}
 	repair     func(x interface{})
 	fillRandom func(x interface{}, rg *basictl.RandGenerator)
 	twin       func() interface{}
@@ -384,4 +385,347 @@ func verifH_C17(d *verifDesc) {
 	verifAssert(len(w) >= 4, "at-least-tag")
 	tag := uint32(w[0]) | uint32(w[1])<<8 | uint32(w[2])<<16 | uint32(w[3])<<24
 	verifAssert(tag == v.TLTag(), "boxed-starts-with-TLTag")
+}
+
+
+// ---- J-mode leaves (numbers concrete on every path; see hgen -jmode) ----
+
+var verifSelJ = -1
+
+func init() {
+	verifResetHooks = append(verifResetHooks, func() { verifSelJ, verifNumCount = -1, 0 })
+}
+
+func verifSel() int {
+	if verifSelJ < 0 {
+		verifSelJ = verifChoice(verifParam("pool", 4))
+	}
+	return verifSelJ
+}
+
+var verifNumCount int
+
+// verifNumJ: integer leaf from a small pool rotated by the per-path selector (width w bits, negative w = signed)
+func verifNumJ(w int) uint64 {
+	pool := []uint64{0, 1, 7, 1234567}
+	signed := w < 0
+	if signed {
+		w = -w
+	}
+	verifNumCount++
+	i := (verifSel() + verifNumCount) % 6
+	var v uint64
+	switch i {
+	case 4: // maximum
+		if signed {
+			v = 1<<uint(w-1) - 1
+		} else if w == 64 {
+			v = ^uint64(0)
+		} else {
+			v = 1<<uint(w) - 1
+		}
+	case 5: // minimum / -1
+		if signed {
+			v = 1 << uint(w-1) // sign bit only: the minimum after conversion
+			if w < 64 {
+				v |= ^uint64(0) << uint(w) // sign-extend so that the conversion intN(uint64) is the minimum
+			}
+		} else {
+			v = 10
+		}
+	default:
+		v = pool[i]
+		if w < 32 && v > 100 {
+			v = 99
+		}
+	}
+	return v
+}
+
+func verifFloatJ(w int) float64 {
+	verifNumCount++
+	switch (verifSel() + verifNumCount) % 6 {
+	case 0:
+		return 0
+	case 1:
+		return 1.5
+	case 2:
+		return -2
+	case 3:
+		return verifNaN()
+	case 4:
+		return verifInf(1)
+	}
+	return verifInf(-1)
+}
+
+func verifNaN() float64 {
+	var z float64
+	return z / z
+}
+
+func verifInf(s int) float64 {
+	var z float64
+	return float64(s) / z
+}
+
+// verifMaskJ: a field-mask value: any subset of the bits the schema uses (one path per subset), plus optionally one unused bit
+func verifMaskJ(bits []int) uint32 {
+	var m uint32
+	for _, b := range bits {
+		if verifChoice(2) == 1 { // verifChoice forks (a verifBool would be if-converted into a symbolic mask)
+			m |= 1 << uint(b)
+		}
+	}
+	if verifParam("extrabit", 0) != 0 && verifChoice(2) == 1 {
+		m |= 1 << 30
+	}
+	return m
+}
+
+// ---- C05: JSON round trip ----
+
+func verifWriteJSON(o verifJSON) ([]byte, error) {
+	return o.WriteJSONGeneral(&basictl.JSONWriteContext{}, nil)
+}
+
+func verifReadJSON(o verifJSON, j []byte) error {
+	return o.ReadJSONGeneral(&basictl.JSONReadContext{}, &basictl.JsonLexer{Data: j})
+}
+
+func verifH_C05(d *verifDesc) {
+	x := d.anyObjJ(verifParam("D", 1))
+	if d.hasRepair {
+		d.repair(x)
+	}
+	v := x.(verifJSON)
+	j, err := verifWriteJSON(v)
+	if err != nil {
+		verifCover("write-error")
+		return
+	}
+	verifCover("written")
+	verifAssert(verifValidJSON(j), "json-is-valid")
+	v2 := d.newObj().(verifJSON)
+	err = verifReadJSON(v2, j)
+	verifAssert(err == nil, "json-read-back-ok")
+	if err != nil {
+		return
+	}
+	j2, err := verifWriteJSON(v2)
+	verifAssert(err == nil && verifBytesEq(j2, j), "json-rewrite-identical")
+	if d.hasTL1 {
+		w1, e1 := v.(verifTL1).WriteTL1General(nil)
+		w2, e2 := v2.(verifTL1).WriteTL1General(nil)
+		verifAssert((e1 == nil) == (e2 == nil), "same-tl1-writability")
+		if e1 == nil && e2 == nil {
+			verifAssert(verifBytesEq(w1, w2), "same-tl1-after-json")
+		}
+	}
+	if d.hasTL2 {
+		verifAssert(verifBytesEq(v.(verifTL2).WriteTL2(nil, nil), v2.(verifTL2).WriteTL2(nil, nil)), "same-tl2-after-json")
+	}
+}
+
+
+// ---- an independent RFC 8259 recogniser (no jlexer, no encoding/json) ----
+
+type verifJP struct {
+	b []byte
+	i int
+}
+
+func (p *verifJP) ws() {
+	for p.i < len(p.b) && (p.b[p.i] == ' ' || p.b[p.i] == '\t' || p.b[p.i] == '\n' || p.b[p.i] == '\r') {
+		p.i++
+	}
+}
+
+func verifHexDigit(c byte) bool {
+	return (c >= '0' && c <= '9') || (c >= 'a' && c <= 'f') || (c >= 'A' && c <= 'F')
+}
+
+func (p *verifJP) str() bool {
+	if p.i >= len(p.b) || p.b[p.i] != '"' {
+		return false
+	}
+	p.i++
+	for p.i < len(p.b) {
+		c := p.b[p.i]
+		switch {
+		case c == '"':
+			p.i++
+			return true
+		case c == '\\':
+			if p.i+1 >= len(p.b) {
+				return false
+			}
+			e := p.b[p.i+1]
+			switch e {
+			case '"', '\\', '/', 'b', 'f', 'n', 'r', 't':
+				p.i += 2
+			case 'u':
+				if p.i+5 >= len(p.b) {
+					return false
+				}
+				for k := 2; k < 6; k++ {
+					if !verifHexDigit(p.b[p.i+k]) {
+						return false
+					}
+				}
+				p.i += 6
+			default:
+				return false
+			}
+		case c < 0x20:
+			return false
+		default:
+			p.i++
+		}
+	}
+	return false
+}
+
+func (p *verifJP) digits() bool {
+	n := 0
+	for p.i < len(p.b) && p.b[p.i] >= '0' && p.b[p.i] <= '9' {
+		p.i++
+		n++
+	}
+	return n > 0
+}
+
+func (p *verifJP) num() bool {
+	if p.i < len(p.b) && p.b[p.i] == '-' {
+		p.i++
+	}
+	if p.i >= len(p.b) {
+		return false
+	}
+	if p.b[p.i] == '0' {
+		p.i++
+	} else if !p.digits() {
+		return false
+	}
+	if p.i < len(p.b) && p.b[p.i] == '.' {
+		p.i++
+		if !p.digits() {
+			return false
+		}
+	}
+	if p.i < len(p.b) && (p.b[p.i] == 'e' || p.b[p.i] == 'E') {
+		p.i++
+		if p.i < len(p.b) && (p.b[p.i] == '+' || p.b[p.i] == '-') {
+			p.i++
+		}
+		if !p.digits() {
+			return false
+		}
+	}
+	return true
+}
+
+func (p *verifJP) lit(s string) bool {
+	if p.i+len(s) > len(p.b) {
+		return false
+	}
+	for k := 0; k < len(s); k++ {
+		if p.b[p.i+k] != s[k] {
+			return false
+		}
+	}
+	p.i += len(s)
+	return true
+}
+
+func (p *verifJP) value(depth int) bool {
+	if depth > 64 {
+		return false
+	}
+	p.ws()
+	if p.i >= len(p.b) {
+		return false
+	}
+	switch c := p.b[p.i]; {
+	case c == '{':
+		p.i++
+		p.ws()
+		if p.i < len(p.b) && p.b[p.i] == '}' {
+			p.i++
+			return true
+		}
+		for {
+			p.ws()
+			if !p.str() {
+				return false
+			}
+			p.ws()
+			if p.i >= len(p.b) || p.b[p.i] != ':' {
+				return false
+			}
+			p.i++
+			if !p.value(depth + 1) {
+				return false
+			}
+			p.ws()
+			if p.i >= len(p.b) {
+				return false
+			}
+			if p.b[p.i] == ',' {
+				p.i++
+				continue
+			}
+			if p.b[p.i] == '}' {
+				p.i++
+				return true
+			}
+			return false
+		}
+	case c == '[':
+		p.i++
+		p.ws()
+		if p.i < len(p.b) && p.b[p.i] == ']' {
+			p.i++
+			return true
+		}
+		for {
+			if !p.value(depth + 1) {
+				return false
+			}
+			p.ws()
+			if p.i >= len(p.b) {
+				return false
+			}
+			if p.b[p.i] == ',' {
+				p.i++
+				continue
+			}
+			if p.b[p.i] == ']' {
+				p.i++
+				return true
+			}
+			return false
+		}
+	case c == '"':
+		return p.str()
+	case c == 't':
+		return p.lit("true")
+	case c == 'f':
+		return p.lit("false")
+	case c == 'n':
+		return p.lit("null")
+	default:
+		return p.num()
+	}
+}
+
+// verifValidJSON: b is exactly one JSON value (RFC 8259 grammar; string bytes >= 0x80 are accepted as-is, the UTF-8
+// well-formedness of string contents is asserted separately where the property demands it).
+func verifValidJSON(b []byte) bool {
+	p := &verifJP{b: b}
+	if !p.value(0) {
+		return false
+	}
+	p.ws()
+	return p.i == len(b)
 }
